@@ -39,8 +39,50 @@ type redirClass struct {
 	desc string
 }
 
+// filterOffOriginConsts: the constants the destination filter can hand back that are not on-origin paths
+// themselves (an empty string meaning "nothing acceptable was asked for"); a use of the filter's output as a
+// redirect target then has to exclude them by a test. Computed by checkC17 before the sinks are classified.
+var filterOffOriginConsts []string
+
+// excludedByFacts: every disjunct of st says v is none of the given constants.
+func excludedByFacts(st km.DNF, v ssa.Value, consts []string) bool {
+	if len(st) == 0 {
+		return false
+	}
+	return st.All(func(k km.Conj) bool {
+		for _, want := range consts {
+			found := false
+			for _, f := range k.List() {
+				if f.Op == token.NEQ && km.Unwrap(f.X) == km.Unwrap(v) {
+					if cs, ok := km.ConstString(f.Y); ok && cs == want {
+						found = true
+					}
+				}
+				if want == "" && (f.Op == token.GTR || f.Op == token.GEQ || f.Op == token.NEQ) {
+					if cl, ok := f.X.(*ssa.Call); ok {
+						if b, isB := cl.Common().Value.(*ssa.Builtin); isB && b.Name() == "len" && km.Unwrap(cl.Common().Args[0]) == km.Unwrap(v) {
+							if i, isC := km.ConstInt(f.Y); isC && ((f.Op == token.GTR && i >= 0) || (f.Op == token.GEQ && i >= 1) || (f.Op == token.NEQ && i == 0)) {
+								found = true
+							}
+						}
+					}
+				}
+			}
+			if !found {
+				return false
+			}
+		}
+		return true
+	})
+}
+
 // classifyTarget decides whether a redirect target stays on the origin.
 func classifyTarget(c *km.Ctx, v ssa.Value, filter *ssa.Function, depth int) redirClass {
+	return classifyTargetAt(c, v, filter, depth, nil)
+}
+
+// classifyTargetAt: st is what is known where the value is used (nil when unknown).
+func classifyTargetAt(c *km.Ctx, v ssa.Value, filter *ssa.Function, depth int, st km.DNF) redirClass {
 	if depth > 6 {
 		return redirClass{false, "too deep: " + km.ValStr(v)}
 	}
@@ -53,6 +95,9 @@ func classifyTarget(c *km.Ctx, v ssa.Value, filter *ssa.Function, depth int) red
 		callee := km.StaticCallee(x.Common())
 		switch {
 		case callee != nil && callee == filter:
+			if len(filterOffOriginConsts) > 0 && !excludedByFacts(st, x, filterOffOriginConsts) {
+				return redirClass{false, sprintf("destination filter output, which may be one of the off-origin constants %q and is not tested against them here", filterOffOriginConsts)}
+			}
 			return redirClass{true, "destination filter output"}
 		case km.CalleeFull(x.Common()) == "fmt.Sprintf":
 			if f, ok := km.ConstString(x.Common().Args[0]); ok {
@@ -94,8 +139,13 @@ func classifyTarget(c *km.Ctx, v ssa.Value, filter *ssa.Function, depth int) red
 	case *ssa.Phi:
 		all := true
 		var descs []string
-		for _, e := range x.Edges {
-			rc := classifyTarget(c, e, filter, depth+1)
+		for i, e := range x.Edges {
+			// what is known on the edge that selects this operand
+			var est km.DNF
+			if i < len(x.Block().Preds) {
+				est = c.F.OnEdge(x.Block().Preds[i], x.Block())
+			}
+			rc := classifyTargetAt(c, e, filter, depth+1, est)
 			descs = append(descs, rc.desc)
 			if !rc.ok {
 				all = false
@@ -156,6 +206,49 @@ func checkC17(c *km.Ctx) {
 	if filter == nil {
 		return
 	}
+	// the constants the filter can return (through its phis and the pure helpers it returns from)
+	filterOffOriginConsts = nil
+	{
+		seen := map[ssa.Value]bool{}
+		var walk func(v ssa.Value, depth int)
+		walk = func(v ssa.Value, depth int) {
+			v = km.Unwrap(v)
+			if seen[v] || depth > 6 {
+				return
+			}
+			seen[v] = true
+			if cs, ok := km.ConstString(v); ok {
+				if !onOriginConst(cs) {
+					filterOffOriginConsts = appendUniq(filterOffOriginConsts, cs)
+				}
+				return
+			}
+			switch x := v.(type) {
+			case *ssa.Phi:
+				for _, e := range x.Edges {
+					walk(e, depth+1)
+				}
+			case *ssa.Call:
+				if g := km.StaticCallee(x.Common()); g != nil && g.Blocks != nil && c.InModule(g) {
+					km.Instrs(g, func(in ssa.Instruction) {
+						if ret, ok := in.(*ssa.Return); ok && len(ret.Results) >= 1 {
+							walk(km.ReturnValues(ret)[0], depth+1)
+						}
+					})
+				}
+			case *ssa.Extract:
+				if cl, ok := x.Tuple.(*ssa.Call); ok && x.Index == 0 {
+					walk(cl, depth+1)
+				}
+			}
+		}
+		km.Instrs(filter, func(in ssa.Instruction) {
+			if ret, ok := in.(*ssa.Return); ok && len(ret.Results) >= 1 {
+				walk(km.ReturnValues(ret)[0], 0)
+			}
+		})
+		sort.Strings(filterOffOriginConsts)
+	}
 	// ---------- R-C17-1
 	n := 0
 	for _, fn := range c.P.AllFuncs {
@@ -202,7 +295,7 @@ func checkC17(c *km.Ctx) {
 				r.Add("R-C17-1", km.FuncName(fn), "redirect (by-design off-origin)", posOf(c, ci), "tabled: "+reason, desc, shapeOK)
 				continue
 			}
-			rc := classifyTarget(c, target, filter, 0)
+			rc := classifyTargetAt(c, target, filter, 0, c.F.At(ci))
 			r.Add("R-C17-1", km.FuncName(fn), "redirect target", posOf(c, ci), "on-origin constant / on-origin constant prefix / destination filter output", clipS(rc.desc, 300), rc.ok)
 		}
 	}
@@ -339,7 +432,13 @@ func checkC17(c *km.Ctx) {
 	for _, rc := range s.RetCases(filter) {
 		v := km.Unwrap(rc.Results[0])
 		if cs, ok := km.ConstString(v); ok {
-			r.Add("R-C17-2", km.FuncName(filter), "constant fallback", posOf(c, rc.Ret), "an on-origin constant", cs, onOriginConst(cs))
+			if onOriginConst(cs) {
+				r.Add("R-C17-2", km.FuncName(filter), "constant fallback", posOf(c, rc.Ret), "an on-origin constant", cs, true)
+			} else {
+				// not a path by itself: acceptable only as a "nothing acceptable" marker that every redirecting use
+				// tests for (R-C17-1 requires that test at each redirect fed by the filter)
+				r.Add("R-C17-2", km.FuncName(filter), "constant fallback", posOf(c, rc.Ret), "an on-origin constant, or a marker constant without '/' that every redirect excludes by a test", sprintf("%q (marker; uses judged under R-C17-1)", cs), !strings.Contains(cs, "/") && !strings.Contains(cs, "\\"))
+			}
 			nRet++
 			continue
 		}
@@ -421,7 +520,10 @@ func phiOriginsAre(v ssa.Value, pred func(ssa.Value) bool) bool {
 	}
 	for _, e := range phi.Edges {
 		e = km.Unwrap(e)
-		if _, isC := e.(*ssa.Const); isC {
+		if cst, isC := e.(*ssa.Const); isC {
+			// a constant the filter can hand back is itself a redirect target: it has to be an on-origin path
+			// (an empty string sends the browser to the page it came from)
+			_ = cst
 			continue
 		}
 		if p2, isP := e.(*ssa.Phi); isP {
